@@ -72,6 +72,12 @@ func VerifAnthropicStreamRoute() {
 					line = "data: " + strings.Repeat(" ", pad) + strings.TrimPrefix(line, "data: ")
 				}
 				io.WriteString(w, line)
+				if gosym.Param("JUNK") == 1 {
+					// lines a backend may interleave: a metadata-only object, a comment, broken JSON
+					io.WriteString(w, gosym.JSONLine("data: ", map[string]interface{}{})+"\n\n")
+					io.WriteString(w, ": keep-alive\n\n")
+					io.WriteString(w, "data: {not json\n\n")
+				}
 			}
 			if behaviour == zzSStreamOK {
 				io.WriteString(w, chunk("", "stop"))
